@@ -243,6 +243,14 @@ HAND = [
     {"x": [[1.7, -0.4]], "dseed": 10, "tree": {"op": "pow", "a": _c(2.0), "b": _v()}},
     {"x": [[1.7, -0.4]], "dseed": 11, "tree": {"op": "pow", "a": {"op": "arr", "v": [2, 3], "dtype": "int"}, "b": _v()}},
     {"x": [[1.7, 0.4]], "dseed": 12, "tree": {"op": "pow", "a": _v(), "b": {"op": "arr", "v": [-1.5, 2.0]}}},
+    # l2_norm of tiny but non-zero vectors (|v| ~ 1e-7 .. 1e-9): differentiable, d|v| = v/|v|
+    {"x": [[3e-7, -4e-7, 1e-8, 2e-7, 5e-9, -1e-7]], "dseed": 13, "near_kink_ok": True,
+     "tree": {"op": "fn", "name": "l2_norm", "p": {"dim": 2}, "args": [_v()]}},
+    {"x": [[3e-7, -4e-7, 1e-8, 2e-7, 5e-9, -1e-7]], "dseed": 14, "near_kink_ok": True,
+     "tree": {"op": "fn", "name": "l2_norm", "p": {"dim": 3}, "args": [_v()]}},
+    {"x": [[2e-9, 1e-9, -2e-9, 1.0, 2.0, 2.0]], "dseed": 15, "near_kink_ok": True,
+     "tree": {"op": "fn", "name": "l2_norm", "p": {"dim": 3},
+              "args": [{"op": "mul", "a": _v(), "b": _c(0.5)}]}},
     # matrix with an empty row and a duplicate entry, all formats
 ] + [
     {"x": [[1.0, -2.0, 0.5]], "dseed": 20 + k, "tree": {
@@ -362,9 +370,13 @@ def check(case, mon):
     if not isinstance(rroot, R.Dual):
         mon.excluded("expression does not depend on any AdArray")
         return
-    if ref.kink < KINK_MIN:
+    if ref.kink < KINK_MIN and not case.get("near_kink_ok"):
         mon.excluded("point closer than 1e-2 to a kink")
         return
+    if case.get("near_kink_ok"):
+        # hand-written points close to, but not on, a kink where the function is
+        # differentiable and the reference derivative is exact (dual numbers need no step)
+        mon.count("points_close_to_a_kink_but_differentiable")
     mon.nontrivial(dep >= 2 and bool(np.any(rroot.J != 0)))
     if math.isfinite(ref.kink):
         mon.measure("kink_distance", ref.kink)
